@@ -176,3 +176,37 @@ func init() {
 		return Val{T: cc.resT, Term: res}
 	}
 }
+
+func init() {
+	// generated clientset getters: pure, never nil (they return a pointer to a client struct)
+	nonNil := func(name string) func(e *Exec, cc *callCtx) Val {
+		return func(e *Exec, cc *callCtx) Val {
+			v := e.uninterp("ext_"+name, cc.args, cc.resT)
+			e.assume(Not(Eq(v.Term, "nil_any")), "generated clientset getter "+name+" returns a client")
+			return v
+		}
+	}
+	specTable["(metacontroller/pkg/client/generated/clientset/internalclientset.Interface).MetacontrollerV1alpha1"] = nonNil("mcclientset.MetacontrollerV1alpha1")
+	specTable["(metacontroller/pkg/client/generated/clientset/internalclientset/typed/metacontroller/v1alpha1.ControllerRevisionsGetter).ControllerRevisions"] = nonNil("mcclientset.ControllerRevisions")
+	specTable["(metacontroller/pkg/client/generated/clientset/internalclientset/typed/metacontroller/v1alpha1.MetacontrollerV1alpha1Interface).ControllerRevisions"] = nonNil("mcclientset.ControllerRevisions")
+	specTable["(metacontroller/pkg/client/generated/lister/metacontroller/v1alpha1.ControllerRevisionLister).ControllerRevisions"] = nonNil("mclisters.ControllerRevisions")
+}
+
+func init() {
+	// (*metav1.ObjectMeta).GetObjectMeta returns the receiver as metav1.Object: never nil for a non-nil receiver
+	specTable["(*k8s.io/apimachinery/pkg/apis/meta/v1.ObjectMeta).GetObjectMeta"] = func(e *Exec, cc *callCtx) Val {
+		v := e.uninterp("ext_metav1.ObjectMeta.GetObjectMeta", cc.args, cc.resT)
+		e.assume(Not(Eq(v.Term, "nil_any")), "GetObjectMeta returns the object itself")
+		return v
+	}
+	// generated typed client for ControllerRevisions: an effect with an arbitrary (result, err); on success the stored object is returned
+	for _, verb := range []string{"Update", "Create"} {
+		verb := verb
+		specTable["(metacontroller/pkg/client/generated/clientset/internalclientset/typed/metacontroller/v1alpha1.ControllerRevisionInterface)."+verb] = func(e *Exec, cc *callCtx) Val {
+			v := e.havocVal(cc.resT, cc.f.prefix+"cr"+verb)
+			e.refBoundNew(cc.st, v)
+			e.assume(Implies(Eq(v.Tup[1].Term, "nil_any"), Not(Eq(v.Tup[0].Term, "0"))), "a successful ControllerRevision "+verb+" returns the stored object")
+			return v
+		}
+	}
+}
